@@ -1661,12 +1661,17 @@ func runC14(res *hx.Result, rng *hx.Rng, tier string, outdir string) {
 		"subscriber table: 14-27 operations (raw registerEvent / unregisterEvent on three connections with client-chosen user ids from a pool of six — " +
 		"half of them aimed at a (connection, id) pair registered right now, for the same or another signal/property of the object, any object id form —, " +
 		"raw and generated writes, UpdateDelay, SignalBoom, reads) plus the 48 scripted collisions of one id (signal A, optional unregister naming A or B, signal B on the same or another connection); " +
+		"optional features: 16-30 operations (enableStats / enableTrace on and off and a registration to traceObject, by any of the three connections; metaObject, properties, stats, clearStats, isStatsEnabled, isTraceEnabled; " +
+		"registerEvent / unregisterEvent under the SAME user ids on the three connections for the property, the signal and traceObject; writes by raw connections, the generated proxy, the second mailbox, the service; SignalBoom; reads; " +
+		"a connection that closes without unregistering, after which the harness repeats a service-side update until one is answered ok and judges that one) plus 20 scripted sequences " +
+		"(feature setting none / statistics / traces / both / traces by registration x switched off again or not x the second subscriber leaves by unregisterEvent or by closing; the three connections do the same steps); " +
+		"half of the sequential sequences and a third of the concurrent histories run with statistics (and traces) switched on beforehand; " +
 		"concurrent: 3-4 threads (server mailbox, second mailbox through DirectClient, the implementor's goroutine, a second connection) x 2-4 operations, " +
 		"stamped by one atomic counter, half of them with a write held inside the validator while others complete; " +
 		"several properties (an object built with bus.NewBasicObject declaring 2-8 int32 properties): 3-5 threads (service-side UpdateProperty goroutines, further mailboxes of the object, " +
 		"DirectClient, a server connection) x 2-4 reads / writes by name or uid / updates mostly of DIFFERENT properties, a subscriber per property, final reads; and rounds of bursts released by a spin barrier — " +
 		"one writer per property with read-back, a polling reader and final reads of every property, or several writers of one property with subscribers on all — that stop at the first failure; " +
-		"non-trivial = an invalid or wrongly-typed write is present (sequential), a user id collision, a re-registration or an invalid write is present (subscriber table), two operations of different threads overlap (concurrent), " +
+		"non-trivial = an invalid or wrongly-typed write is present (sequential), a user id collision, a re-registration or an invalid write is present (subscriber table), the same or an accepted write to a subscriber while statistics or traces are on (optional features), two operations of different threads overlap (concurrent), " +
 		"two accepted writes of different threads to different properties overlap (several properties; for a configuration of rounds: in a sampled round); distinct by sha256"
 	nSeq, nReg, nConc, nMulti, nFeat := 120, 60, 80, 40, 50
 	if tier == "thorough" {
